@@ -274,11 +274,10 @@ def builder_rules(ck):
         s_inner = sum(len(f.calls(r"Iterator::take$")) for (f, cl) in g["sign_transaction_hash"] if cl)
         n_outer = sum(len(f.calls(r"Iterator::take$")) for (f, cl) in g["num_keys"] if not cl)
         by_thr = by_len = 0
-        for (f, cl) in g["num_keys"]:
-            if cl:
-                o = f.origins(0, deep=True)
-                by_thr += ("field", "threshold") in o
-                by_len += has_call_origin(o, r"::len$")
+        for (f, cl) in g["num_keys"]:     # closures of map/sum, or the body itself when it counts in a loop
+            o = f.origins(0, deep=True)
+            by_thr += ("field", "threshold") in o
+            by_len += has_call_origin(o, r"::len$")
         okn = (s_outer > 0) == (n_outer > 0) and ((s_inner > 0 and by_thr >= 1 and by_len == 0) or (s_inner == 0 and by_len >= 1 and by_thr == 0))
         f0 = [f for (f, cl) in g["num_keys"] if not cl][0]
         ck.ob("SIB", f0.path, "declared-signature-count-is-what-the-signer-produces", okn,
